@@ -56,6 +56,11 @@ var c15Callbacks = []func() jast.Node{
 		return lam([]string{"v", "i"}, &jast.Cond{If: &jast.Bin{Op: "=", L: v("i"), R: &jast.Num{V: 1}}, Then: &jast.Name{V: "nothing"}, Else: &jast.Array{Items: []jast.Node{v("v")}}})
 	},
 	func() jast.Node { return &jast.Apply{L: v("string"), R: v("length")} },
+	// a function held by value after passing through a library function
+	func() jast.Node { return call("distinct", v("string")) },
+	func() jast.Node {
+		return &jast.Pred{X: call("reverse", &jast.Array{Items: []jast.Node{v("type"), v("string")}}), Filters: []jast.Node{&jast.Num{V: 0}}}
+	},
 	// declared with no parameters: must be called without arguments
 	func() jast.Node { return &jast.Lambda{Params: nil, Sig: ":s", Body: &jast.Str{V: "typed0"}} },
 	func() jast.Node { return &jast.Lambda{Params: []string{"v"}, Sig: "x:x", Body: obj("v", v("v"))} },
